@@ -15,6 +15,7 @@ import (
 	"path/filepath"
 	"sort"
 	"strings"
+	"time"
 
 	"github.com/dsnet/compress"
 	cerrors "github.com/dsnet/compress/internal/errors"
@@ -258,3 +259,5 @@ type Family struct {
 var families = map[string]*Family{}
 
 func register(f *Family) { families[f.Name] = f }
+
+func timeSec(n int) time.Duration { return time.Duration(n) * time.Second }
